@@ -82,6 +82,15 @@ fn cmd_c12probe(req: &Value) -> Value {
     let reqc = req.clone();
     let stack = req.get("stack_mb").and_then(|v| v.as_u64()).unwrap_or(64) as usize * 1024 * 1024;
     let cap = req.get("cap_ms").and_then(|v| v.as_u64()).unwrap_or(20000);
+    // `"log":"off"`: the probe runs with logging disabled, as in a normal embedding without a logger.  (main() sets the
+    // maximum level to Debug for the hook streams; at that level every log::debug! of the compiler -- and, in this
+    // cfg(prqlc_verif) build, every verification hook -- builds its arguments, which costs up to quadratic time on long
+    // inputs and is not a cost of the product.)  Timing-sensitive streams of C12 ask for it.
+    if req.get("log").and_then(|v| v.as_str()) == Some("off") {
+        log::set_max_level(log::LevelFilter::Off);
+    } else {
+        log::set_max_level(log::LevelFilter::Debug);
+    }
     let (tx, rx) = mpsc::channel();
     let h = std::thread::Builder::new().stack_size(stack).spawn(move || {
         let t0 = Instant::now();
